@@ -54,9 +54,9 @@ func (k msgServer) Store(goCtx context.Context, msg *types.MsgStore) (*types.Msg
 		return nil, sdkerrors.Wrapf(types.ErrInvalidCid, "invalid cid: %s", proposal.Cid)
 	}
 
-	if !strings.Contains(proposal.CommitId, proposal.DataId) {
-		// validate the permission for all update operations
-		meta, isFound := k.Keeper.model.GetMetadata(ctx, proposal.DataId)
+	// validate the permission for every operation on an existing model, whatever the shape of
+	// the commit id
+	if meta, isFound := k.Keeper.model.GetMetadata(ctx, proposal.DataId); isFound || !strings.Contains(proposal.CommitId, proposal.DataId) {
 		if !isFound {
 			return nil, status.Errorf(codes.NotFound, "metadata :%s not found", proposal.DataId)
 		}
